@@ -1,12 +1,67 @@
 //go:build verif
 
-// Contracts for package datamover, property C18 (comment-only; read by /verif/engine, never compiled into a build).
+// Contracts for package gmmu, property C18 (comment-only; read by /verif/engine, never compiled into a build).
 // C18 (per-step part): the control middleware answers each control request exactly once, echoing its command / ID / source,
 // refuses unsupported verbs, and moves ControlState as mem/CONTROL_PROTOCOL.md says.
 // View: the "Control" port's incoming head is the request being handled; m.comp.State.ControlState is the lifecycle state;
-// m.comp.State.CurrentTransaction is the in-flight bookkeeping (quiescent <==> !Active).
-// The ghost port view, the trusted port/ID-generator contracts and idGenOK are those of the C23 file / mem/rob.
-package datamover
+// m.comp.State.WalkingTranslations / RemoteMemReqs are the in-flight bookkeeping (quiescent <==> both empty).
+package gmmu
+
+// ---- ghost view of the ports (same names, meaning and trusted interface contracts as mem/rob's C21 file; ghost state is per package) ----
+//@ ghost var canSend set
+//@ ghost var sendCnt map
+//@ ghost var sentTyp map2
+//@ ghost var sentVal map2
+//@ ghost var inTyp map
+//@ ghost var inVal map
+//@ ghost var retrCnt map
+
+// ---- trusted: messaging.Port is an interface (any implementation); sequential reading of one component's tick ----
+//@ iface messaging.Port.CanSend()
+//@   trusted
+//@   ensures result <==> canSend[ifaceval(self)]
+//@   assigns nothing
+//@ iface messaging.Port.Send(msg)
+//@   trusted
+//@   panics !canSend[ifaceval(self)]
+//@   ensures sendCnt == upd(old(sendCnt), ifaceval(self), old(sendCnt)[ifaceval(self)] + 1)
+//@   ensures sentTyp == upd(old(sentTyp), ifaceval(self), upd(old(sentTyp)[ifaceval(self)], old(sendCnt)[ifaceval(self)], typeid(msg)))
+//@   ensures sentVal == upd(old(sentVal), ifaceval(self), upd(old(sentVal)[ifaceval(self)], old(sendCnt)[ifaceval(self)], ifaceval(msg)))
+//@   assigns canSend, sendCnt, sentTyp, sentVal
+//@ iface messaging.Port.PeekIncoming()
+//@   trusted
+//@   ensures typeid(result) == inTyp[ifaceval(self)] && ifaceval(result) == inVal[ifaceval(self)] && (typeid(result) == 0 ==> ifaceval(result) == 0)
+//@   assigns nothing
+//@ iface messaging.Port.RetrieveIncoming()
+//@   trusted
+//@   ensures typeid(result) == old(inTyp)[ifaceval(self)] && ifaceval(result) == old(inVal)[ifaceval(self)] && (typeid(result) == 0 ==> ifaceval(result) == 0)
+//@   ensures retrCnt == upd(old(retrCnt), ifaceval(self), old(retrCnt)[ifaceval(self)] + (old(inTyp)[ifaceval(self)] == 0 ? 0 : 1))
+//@   ensures forall p int :: p != ifaceval(self) ==> inTyp[p] == old(inTyp)[p] && inVal[p] == old(inVal)[p]
+//@   assigns inTyp, inVal, retrCnt
+//@ ufunc portRemote(p) int
+//@ iface messaging.Port.AsRemote()
+//@   trusted
+//@   assigns nothing
+//@   ensures result == portRemote(self)
+
+//@ ext messaging.(PortOwnerBase).GetPortByName(po, name)
+//@   trusted
+//@   pure
+//@   panics !(name in po.ports)
+//@   ensures result == po.ports[name]
+//@ ext modeling.(*Component[S, T, R]).Spec(c)
+//@   trusted
+//@   pure
+//@   ensures result == c.spec
+
+// ---- trusted: the ID generator is an interface value (C41) ----
+//@ ghost var issued set
+//@ iface timing.IDGenerator.Generate()
+//@   trusted
+//@   ensures !old(issued)[result] && issued == upd(old(issued), result, true)
+//@   assigns issued, key("O|timing.sequentialIDGenerator|nextID"), key("O|timing.parallelIDGenerator|nextID")
+//@ pred idGenOK() = timing.idGeneratorInstantiated ==> timing.idGenerator != nil
+// (endInflightTasks and the tracing entry points are under contract in the package's C03 file: they only append to the ghost log c03EndN/c03EndSeq)
 
 // ---- views (c18-prefixed: no clash with the package's other contract files) ----
 //@ func c18Port(m, n) = m.comp.TickingComponent.PortOwnerBase.ports[n]
@@ -25,23 +80,23 @@ package datamover
 //@ pred c18Supported(c) = c == memcontrolprotocol.CmdPause || c == memcontrolprotocol.CmdDrain || c == memcontrolprotocol.CmdEnable || c == memcontrolprotocol.CmdReset
 // the response sent last on the control port answers (cmd, id, src) with (success, err)
 //@ pred c18Answers(m, cmd, id, src, success, err) = c18IsRsp(c18Last(c18Ctl(m))) && c18Rsp(c18Ctl(m)).Command == cmd && c18Rsp(c18Ctl(m)).RspTo == id && c18Rsp(c18Ctl(m)).Dst == src && c18Rsp(c18Ctl(m)).Success == success && c18Rsp(c18Ctl(m)).Error == err
-//@ pred c18WF(m) = m.comp != nil && m.comp.TickingComponent != nil && m.comp.TickingComponent.PortOwnerBase != nil && ("Control" in m.comp.TickingComponent.PortOwnerBase.ports) && m != nil && ("Top" in m.comp.TickingComponent.PortOwnerBase.ports) && ("Inside" in m.comp.TickingComponent.PortOwnerBase.ports) && ("Outside" in m.comp.TickingComponent.PortOwnerBase.ports) && c18Ctl(m) != c18P(m, "Top") && c18Ctl(m) != c18P(m, "Inside") && c18Ctl(m) != c18P(m, "Outside")
-//@ pred c18Quiet(m) = !m.comp.State.CurrentTransaction.Active
-//@ pred c18Kept(m) = unchanged(m.comp.State.ControlState) && unchanged(m.comp.State.CurrentCmdID) && unchanged(m.comp.State.CurrentCmdSrc) && unchanged(m.comp.State.CurrentTransaction.Active) && unchanged(m.comp.State.CurrentTransaction.ReqID)
+//@ pred c18WF(m) = m.comp != nil && m.comp.TickingComponent != nil && m.comp.TickingComponent.PortOwnerBase != nil && ("Control" in m.comp.TickingComponent.PortOwnerBase.ports) && m != nil && ("Top" in m.comp.TickingComponent.PortOwnerBase.ports) && c18Ctl(m) != c18P(m, "Top") && ("Bottom" in m.comp.TickingComponent.PortOwnerBase.ports) && c18Ctl(m) != c18P(m, "Bottom")
+//@ pred c18Quiet(m) = len(m.comp.State.WalkingTranslations) == 0 && len(m.comp.State.RemoteMemReqs) == 0
+//@ pred c18Kept(m) = unchanged(m.comp.State.ControlState) && unchanged(m.comp.State.CurrentCmdID) && unchanged(m.comp.State.CurrentCmdSrc) && unchanged(m.comp.State.WalkingTranslations) && unchanged(m.comp.State.RemoteMemReqs)
 
 //@ fn (*ctrlMiddleware).ctrlPort
 //@   property C18
 //@   requires c18WF(m)
-//@   label C18.datamover.ctrlport
+//@   label C18.gmmu.ctrlport
 //@   ensures result == c18Port(m, "Control")
 //@   assigns nothing
 
 //@ fn makeCtrlRsp
 //@   property C18
 //@   requires idGenOK()
-//@   label C18.datamover.mkrsp.fields
+//@   label C18.gmmu.mkrsp.fields
 //@   ensures result.Command == cmd && result.Success == success && result.Error == errStr && result.Dst == dst && result.RspTo == rspTo
-//@   label C18.datamover.mkrsp.idgen
+//@   label C18.gmmu.mkrsp.idgen
 //@   ensures idGenOK()
 //@   assigns issued, key("G|github.com/sarchlab/akita/v5/timing.idGenerator|"), key("G|github.com/sarchlab/akita/v5/timing.idGeneratorInstantiated|"), key("O|timing.sequentialIDGenerator|nextID"), key("O|timing.parallelIDGenerator|nextID")
 
@@ -49,51 +104,51 @@ package datamover
 //@ fn (*ctrlMiddleware).handlePause
 //@   property C18
 //@   requires c18WF(m) && idGenOK() && inTyp[c18Ctl(m)] != 0
-//@   label C18.datamover.pause.progress
+//@   label C18.gmmu.pause.progress
 //@   ensures result <==> old(canSend[c18Ctl(m)])
-//@   label C18.datamover.pause.once
+//@   label C18.gmmu.pause.once
 //@   ensures result ==> c18OneSent(c18Ctl(m)) && c18OneRetr(c18Ctl(m))
-//@   label C18.datamover.pause.blocked
+//@   label C18.gmmu.pause.blocked
 //@   ensures !result ==> c18NoSend() && c18NoRetr() && c18Kept(m)
-//@   label C18.datamover.pause.echo
+//@   label C18.gmmu.pause.echo
 //@   ensures result ==> c18Answers(m, memcontrolprotocol.CmdPause, req.ID, req.Src, true, "")
-//@   label C18.datamover.pause.state
-//@   ensures result ==> m.comp.State.ControlState == memcontrolprotocol.StatePaused && unchanged(m.comp.State.CurrentTransaction.Active) && unchanged(m.comp.State.CurrentTransaction.ReqID)
-//@   label C18.datamover.pause.idgen
+//@   label C18.gmmu.pause.state
+//@   ensures result ==> m.comp.State.ControlState == memcontrolprotocol.StatePaused && unchanged(m.comp.State.WalkingTranslations) && unchanged(m.comp.State.RemoteMemReqs)
+//@   label C18.gmmu.pause.idgen
 //@   ensures idGenOK()
 //@   assigns m.comp.State.ControlState, canSend, sendCnt, sentTyp, sentVal, inTyp, inVal, retrCnt, issued, key("G|github.com/sarchlab/akita/v5/timing.idGenerator|"), key("G|github.com/sarchlab/akita/v5/timing.idGeneratorInstantiated|"), key("O|timing.sequentialIDGenerator|nextID"), key("O|timing.parallelIDGenerator|nextID")
 
 //@ fn (*ctrlMiddleware).handleEnable
 //@   property C18
 //@   requires c18WF(m) && idGenOK() && inTyp[c18Ctl(m)] != 0
-//@   label C18.datamover.enable.progress
+//@   label C18.gmmu.enable.progress
 //@   ensures result <==> old(canSend[c18Ctl(m)])
-//@   label C18.datamover.enable.once
+//@   label C18.gmmu.enable.once
 //@   ensures result ==> c18OneSent(c18Ctl(m)) && c18OneRetr(c18Ctl(m))
-//@   label C18.datamover.enable.blocked
+//@   label C18.gmmu.enable.blocked
 //@   ensures !result ==> c18NoSend() && c18NoRetr() && c18Kept(m)
-//@   label C18.datamover.enable.echo
+//@   label C18.gmmu.enable.echo
 //@   ensures result ==> c18Answers(m, memcontrolprotocol.CmdEnable, req.ID, req.Src, true, "")
-//@   label C18.datamover.enable.state
-//@   ensures result ==> m.comp.State.ControlState == memcontrolprotocol.StateEnabled && unchanged(m.comp.State.CurrentTransaction.Active) && unchanged(m.comp.State.CurrentTransaction.ReqID)
-//@   label C18.datamover.enable.idgen
+//@   label C18.gmmu.enable.state
+//@   ensures result ==> m.comp.State.ControlState == memcontrolprotocol.StateEnabled && unchanged(m.comp.State.WalkingTranslations) && unchanged(m.comp.State.RemoteMemReqs)
+//@   label C18.gmmu.enable.idgen
 //@   ensures idGenOK()
 //@   assigns m.comp.State.ControlState, canSend, sendCnt, sentTyp, sentVal, inTyp, inVal, retrCnt, issued, key("G|github.com/sarchlab/akita/v5/timing.idGenerator|"), key("G|github.com/sarchlab/akita/v5/timing.idGeneratorInstantiated|"), key("O|timing.sequentialIDGenerator|nextID"), key("O|timing.parallelIDGenerator|nextID")
 
 //@ fn (*ctrlMiddleware).handleUnsupported
 //@   property C18
 //@   requires c18WF(m) && idGenOK() && inTyp[c18Ctl(m)] != 0
-//@   label C18.datamover.unsupported.progress
+//@   label C18.gmmu.unsupported.progress
 //@   ensures result <==> old(canSend[c18Ctl(m)])
-//@   label C18.datamover.unsupported.once
+//@   label C18.gmmu.unsupported.once
 //@   ensures result ==> c18OneSent(c18Ctl(m)) && c18OneRetr(c18Ctl(m))
-//@   label C18.datamover.unsupported.blocked
+//@   label C18.gmmu.unsupported.blocked
 //@   ensures !result ==> c18NoSend() && c18NoRetr() && c18Kept(m)
-//@   label C18.datamover.unsupported.echo
+//@   label C18.gmmu.unsupported.echo
 //@   ensures result ==> c18Answers(m, req.Command, req.ID, req.Src, false, memcontrolprotocol.ErrUnsupported)
-//@   label C18.datamover.unsupported.state
+//@   label C18.gmmu.unsupported.state
 //@   ensures c18Kept(m)
-//@   label C18.datamover.unsupported.idgen
+//@   label C18.gmmu.unsupported.idgen
 //@   ensures idGenOK()
 //@   assigns canSend, sendCnt, sentTyp, sentVal, inTyp, inVal, retrCnt, issued, key("G|github.com/sarchlab/akita/v5/timing.idGenerator|"), key("G|github.com/sarchlab/akita/v5/timing.idGeneratorInstantiated|"), key("O|timing.sequentialIDGenerator|nextID"), key("O|timing.parallelIDGenerator|nextID")
 
@@ -101,53 +156,47 @@ package datamover
 //@ fn (*ctrlMiddleware).handleDrain
 //@   property C18
 //@   requires c18WF(m) && inTyp[c18Ctl(m)] != 0
-//@   label C18.datamover.drain.accept
+//@   label C18.gmmu.drain.accept
 //@   ensures result && c18NoSend() && c18OneRetr(c18Ctl(m))
-//@   label C18.datamover.drain.remember
-//@   ensures m.comp.State.ControlState == memcontrolprotocol.StateDraining && m.comp.State.CurrentCmdID == req.ID && m.comp.State.CurrentCmdSrc == req.Src && unchanged(m.comp.State.CurrentTransaction.Active) && unchanged(m.comp.State.CurrentTransaction.ReqID)
+//@   label C18.gmmu.drain.remember
+//@   ensures m.comp.State.ControlState == memcontrolprotocol.StateDraining && m.comp.State.CurrentCmdID == req.ID && m.comp.State.CurrentCmdSrc == req.Src && unchanged(m.comp.State.WalkingTranslations) && unchanged(m.comp.State.RemoteMemReqs)
 //@   assigns m.comp.State.ControlState, m.comp.State.CurrentCmdID, m.comp.State.CurrentCmdSrc, inTyp, inVal, retrCnt
 
 //@ func c18P(m, n) = ifaceval(c18Port(m, n))
 //@ fn (*ctrlMiddleware).topPort
 //@   property C18
 //@   requires c18WF(m)
-//@   label C18.datamover.topport
+//@   label C18.gmmu.topport
 //@   ensures result == c18Port(m, "Top")
 //@   assigns nothing
-//@ fn (*ctrlMiddleware).insidePort
+//@ fn (*ctrlMiddleware).bottomPort
 //@   property C18
 //@   requires c18WF(m)
-//@   label C18.datamover.insideport
-//@   ensures result == c18Port(m, "Inside")
-//@   assigns nothing
-//@ fn (*ctrlMiddleware).outsidePort
-//@   property C18
-//@   requires c18WF(m)
-//@   label C18.datamover.outsideport
-//@   ensures result == c18Port(m, "Outside")
+//@   label C18.gmmu.bottomport
+//@   ensures result == c18Port(m, "Bottom")
 //@   assigns nothing
 
-// ---- reset: the in-flight transfer and the data buffer are wiped, agent enabled, then ONE ack ----
-// (endInflightTasks is under contract in the package's C03 file: it only appends to the ghost log c03EndN/c03EndSeq)
-//@ pred c18OthersKept(m) = forall p int :: p != c18Ctl(m) && p != c18P(m, "Top") && p != c18P(m, "Inside") && p != c18P(m, "Outside") ==> inTyp[p] == old(inTyp)[p] && inVal[p] == old(inVal)[p] && retrCnt[p] == old(retrCnt)[p]
+
+// ---- reset: in-flight bookkeeping cleared, agent enabled, then ONE ack ----
+//@ pred c18OthersKept(m) = forall p int :: p != c18Ctl(m) && p != c18P(m, "Top") && p != c18P(m, "Bottom") ==> inTyp[p] == old(inTyp)[p] && inVal[p] == old(inVal)[p] && retrCnt[p] == old(retrCnt)[p]
 //@ pred c18CtlInKept(m) = inTyp[c18Ctl(m)] == old(inTyp)[c18Ctl(m)] && inVal[c18Ctl(m)] == old(inVal)[c18Ctl(m)] && retrCnt[c18Ctl(m)] == old(retrCnt)[c18Ctl(m)]
-//@ pred c18ResetDone(m) = m.comp.State.ControlState == memcontrolprotocol.StateEnabled && !m.comp.State.CurrentTransaction.Active && len(m.comp.State.CurrentTransaction.PendingRead) == 0 && len(m.comp.State.CurrentTransaction.PendingWrite) == 0 && len(m.comp.State.Buffer.Chunks) == 0 && m.comp.State.Buffer.Offset == 0 && m.comp.State.CurrentCmdID == 0 && m.comp.State.CurrentCmdSrc == ""
+//@ pred c18ResetDone(m) = m.comp.State.ControlState == memcontrolprotocol.StateEnabled && len(m.comp.State.WalkingTranslations) == 0 && len(m.comp.State.RemoteMemReqs) == 0 && len(m.comp.State.ToRemoveFromPTW) == 0 && m.comp.State.CurrentCmdID == 0 && m.comp.State.CurrentCmdSrc == ""
 //@ fn (*ctrlMiddleware).handleReset
 //@   property C18
 //@   requires c18WF(m) && idGenOK() && inTyp[c18Ctl(m)] != 0
-//@   label C18.datamover.reset.progress
+//@   label C18.gmmu.reset.progress
 //@   ensures result <==> old(canSend[c18Ctl(m)])
-//@   label C18.datamover.reset.once
+//@   label C18.gmmu.reset.once
 //@   ensures result ==> c18OneSent(c18Ctl(m)) && retrCnt[c18Ctl(m)] == old(retrCnt)[c18Ctl(m)] + 1 && c18OthersKept(m)
-//@   label C18.datamover.reset.blocked
+//@   label C18.gmmu.reset.blocked
 //@   ensures !result ==> c18NoSend() && c18NoRetr() && c18Kept(m)
-//@   label C18.datamover.reset.echo
+//@   label C18.gmmu.reset.echo
 //@   ensures result ==> c18Answers(m, memcontrolprotocol.CmdReset, req.ID, req.Src, true, "")
-//@   label C18.datamover.reset.state
+//@   label C18.gmmu.reset.state
 //@   ensures result ==> c18ResetDone(m)
-//@   label C18.datamover.reset.idgen
+//@   label C18.gmmu.reset.idgen
 //@   ensures idGenOK()
-//@   assigns m.comp.State.ControlState, m.comp.State.CurrentCmdID, m.comp.State.CurrentCmdSrc, m.comp.State.CurrentTransaction, m.comp.State.Buffer, c03EndN, c03EndSeq, canSend, sendCnt, sentTyp, sentVal, inTyp, inVal, retrCnt, issued, key("G|github.com/sarchlab/akita/v5/timing.idGenerator|"), key("G|github.com/sarchlab/akita/v5/timing.idGeneratorInstantiated|"), key("O|timing.sequentialIDGenerator|nextID"), key("O|timing.parallelIDGenerator|nextID")
+//@   assigns m.comp.State.ControlState, m.comp.State.CurrentCmdID, m.comp.State.CurrentCmdSrc, m.comp.State.WalkingTranslations, m.comp.State.RemoteMemReqs, m.comp.State.ToRemoveFromPTW, c03EndN, c03EndSeq, canSend, sendCnt, sentTyp, sentVal, inTyp, inVal, retrCnt, issued, key("G|github.com/sarchlab/akita/v5/timing.idGenerator|"), key("G|github.com/sarchlab/akita/v5/timing.idGeneratorInstantiated|"), key("O|timing.sequentialIDGenerator|nextID"), key("O|timing.parallelIDGenerator|nextID")
 //@   loop 0: invariant c18WF(m) && idGenOK()
 //@   loop 0: invariant c18CtlInKept(m) && c18OthersKept(m)
 //@   loop 0: invariant sendCnt == old(sendCnt) && sentTyp == old(sentTyp) && sentVal == old(sentVal) && canSend == old(canSend)
@@ -156,28 +205,24 @@ package datamover
 //@   loop 1: invariant c18CtlInKept(m) && c18OthersKept(m)
 //@   loop 1: invariant sendCnt == old(sendCnt) && sentTyp == old(sentTyp) && sentVal == old(sentVal) && canSend == old(canSend)
 //@   loop 1: invariant c18ResetDone(m)
-//@   loop 2: invariant c18WF(m) && idGenOK()
-//@   loop 2: invariant c18CtlInKept(m) && c18OthersKept(m)
-//@   loop 2: invariant sendCnt == old(sendCnt) && sentTyp == old(sentTyp) && sentVal == old(sentVal) && canSend == old(canSend)
-//@   loop 2: invariant c18ResetDone(m)
 
 // ---- deferred drain ack: only when quiescent (c18Quiet) and the port can send; lands in Paused ----
 //@ fn (*ctrlMiddleware).completePendingDrain
 //@   property C18
 //@   requires c18WF(m) && idGenOK()
-//@   label C18.datamover.drain.progress
+//@   label C18.gmmu.drain.progress
 //@   ensures result <==> old(m.comp.State.ControlState == memcontrolprotocol.StateDraining && c18Quiet(m) && canSend[c18Ctl(m)])
-//@   label C18.datamover.drain.once
+//@   label C18.gmmu.drain.once
 //@   ensures (result ==> c18OneSent(c18Ctl(m))) && c18NoRetr()
-//@   label C18.datamover.drain.echo
+//@   label C18.gmmu.drain.echo
 //@   ensures result ==> c18Answers(m, memcontrolprotocol.CmdDrain, old(m.comp.State.CurrentCmdID), old(m.comp.State.CurrentCmdSrc), true, "")
-//@   label C18.datamover.drain
-//@   ensures result ==> m.comp.State.ControlState == memcontrolprotocol.StatePaused && c18Quiet(m) && unchanged(m.comp.State.CurrentTransaction.Active) && unchanged(m.comp.State.CurrentTransaction.ReqID)
-//@   label C18.datamover.drain.wait
+//@   label C18.gmmu.drain
+//@   ensures result ==> m.comp.State.ControlState == memcontrolprotocol.StatePaused && c18Quiet(m) && unchanged(m.comp.State.WalkingTranslations) && unchanged(m.comp.State.RemoteMemReqs)
+//@   label C18.gmmu.drain.wait
 //@   ensures !result ==> c18NoSend() && c18Kept(m)
-//@   label C18.datamover.drain.idgen
+//@   label C18.gmmu.drain.idgen
 //@   ensures idGenOK()
-//@   assigns m.comp.State.ControlState, m.comp.State.CurrentCmdID, m.comp.State.CurrentCmdSrc, canSend, sendCnt, sentTyp, sentVal, issued, key("G|github.com/sarchlab/akita/v5/timing.idGenerator|"), key("G|github.com/sarchlab/akita/v5/timing.idGeneratorInstantiated|"), key("O|timing.sequentialIDGenerator|nextID"), key("O|timing.parallelIDGenerator|nextID")
+//@   assigns m.comp.State.ControlState, canSend, sendCnt, sentTyp, sentVal, issued, key("G|github.com/sarchlab/akita/v5/timing.idGenerator|"), key("G|github.com/sarchlab/akita/v5/timing.idGeneratorInstantiated|"), key("O|timing.sequentialIDGenerator|nextID"), key("O|timing.parallelIDGenerator|nextID")
 
 // ---- one control step: the message at the head of the Control port ----
 //@ func c18Hd(m) = old(c18Head(c18Ctl(m)))
@@ -186,33 +231,33 @@ package datamover
 //@ fn (*ctrlMiddleware).handleIncoming
 //@   property C18
 //@   requires c18WF(m) && idGenOK()
-//@   label C18.datamover.idle
+//@   label C18.gmmu.idle
 //@   ensures old(inTyp)[c18Ctl(m)] == 0 ==> !result && c18NoSend() && c18NoRetr() && c18Kept(m)
-//@   label C18.datamover.nonreq
+//@   label C18.gmmu.nonreq
 //@   ensures old(inTyp)[c18Ctl(m)] != 0 && !c18IsReq(c18Hd(m)) ==> result && c18NoSend() && c18OneRetr(c18Ctl(m)) && c18Kept(m)
-//@   label C18.datamover.once
+//@   label C18.gmmu.once
 //@   ensures c18HdSync(m) ==> (result <==> old(canSend[c18Ctl(m)])) && (result ==> c18OneSent(c18Ctl(m)) && retrCnt[c18Ctl(m)] == old(retrCnt)[c18Ctl(m)] + 1)
-//@   label C18.datamover.once.blocked
+//@   label C18.gmmu.once.blocked
 //@   ensures c18HdSync(m) && !result ==> c18NoSend() && c18NoRetr() && c18Kept(m)
-//@   label C18.datamover.sendframe
+//@   label C18.gmmu.sendframe
 //@   ensures c18NoSend() || c18OneSent(c18Ctl(m))
-//@   label C18.datamover.echo
+//@   label C18.gmmu.echo
 //@   ensures c18HdSync(m) && result ==> c18IsRsp(c18Last(c18Ctl(m))) && c18Rsp(c18Ctl(m)).Command == c18HdCmd(m) && c18Rsp(c18Ctl(m)).RspTo == c18Req(c18Hd(m)).ID && c18Rsp(c18Ctl(m)).Dst == c18Req(c18Hd(m)).Src
-//@   label C18.datamover.unsupported
+//@   label C18.gmmu.unsupported
 //@   ensures c18HdSync(m) && result && !c18Supported(c18HdCmd(m)) ==> !c18Rsp(c18Ctl(m)).Success && c18Rsp(c18Ctl(m)).Error == memcontrolprotocol.ErrUnsupported && c18Kept(m)
-//@   label C18.datamover.supported
+//@   label C18.gmmu.supported
 //@   ensures c18HdSync(m) && result && c18Supported(c18HdCmd(m)) ==> c18Rsp(c18Ctl(m)).Success && c18Rsp(c18Ctl(m)).Error == ""
-//@   label C18.datamover.pause
-//@   ensures c18HdSync(m) && result && c18HdCmd(m) == memcontrolprotocol.CmdPause ==> m.comp.State.ControlState == memcontrolprotocol.StatePaused && unchanged(m.comp.State.CurrentTransaction.Active) && unchanged(m.comp.State.CurrentTransaction.ReqID)
-//@   label C18.datamover.enable
-//@   ensures c18HdSync(m) && result && c18HdCmd(m) == memcontrolprotocol.CmdEnable ==> m.comp.State.ControlState == memcontrolprotocol.StateEnabled && unchanged(m.comp.State.CurrentTransaction.Active) && unchanged(m.comp.State.CurrentTransaction.ReqID)
-//@   label C18.datamover.reset
+//@   label C18.gmmu.pause
+//@   ensures c18HdSync(m) && result && c18HdCmd(m) == memcontrolprotocol.CmdPause ==> m.comp.State.ControlState == memcontrolprotocol.StatePaused && unchanged(m.comp.State.WalkingTranslations) && unchanged(m.comp.State.RemoteMemReqs)
+//@   label C18.gmmu.enable
+//@   ensures c18HdSync(m) && result && c18HdCmd(m) == memcontrolprotocol.CmdEnable ==> m.comp.State.ControlState == memcontrolprotocol.StateEnabled && unchanged(m.comp.State.WalkingTranslations) && unchanged(m.comp.State.RemoteMemReqs)
+//@   label C18.gmmu.reset
 //@   ensures c18HdSync(m) && result && c18HdCmd(m) == memcontrolprotocol.CmdReset ==> c18ResetDone(m)
-//@   label C18.datamover.drain.accepted
-//@   ensures c18IsReq(c18Hd(m)) && c18HdCmd(m) == memcontrolprotocol.CmdDrain ==> result && c18NoSend() && c18OneRetr(c18Ctl(m)) && m.comp.State.ControlState == memcontrolprotocol.StateDraining && m.comp.State.CurrentCmdID == c18Req(c18Hd(m)).ID && m.comp.State.CurrentCmdSrc == c18Req(c18Hd(m)).Src && unchanged(m.comp.State.CurrentTransaction.Active) && unchanged(m.comp.State.CurrentTransaction.ReqID)
-//@   label C18.datamover.step.idgen
+//@   label C18.gmmu.drain.accepted
+//@   ensures c18IsReq(c18Hd(m)) && c18HdCmd(m) == memcontrolprotocol.CmdDrain ==> result && c18NoSend() && c18OneRetr(c18Ctl(m)) && m.comp.State.ControlState == memcontrolprotocol.StateDraining && m.comp.State.CurrentCmdID == c18Req(c18Hd(m)).ID && m.comp.State.CurrentCmdSrc == c18Req(c18Hd(m)).Src && unchanged(m.comp.State.WalkingTranslations) && unchanged(m.comp.State.RemoteMemReqs)
+//@   label C18.gmmu.step.idgen
 //@   ensures idGenOK()
-//@   assigns m.comp.State.ControlState, m.comp.State.CurrentCmdID, m.comp.State.CurrentCmdSrc, m.comp.State.CurrentTransaction, m.comp.State.Buffer, c03EndN, c03EndSeq, canSend, sendCnt, sentTyp, sentVal, inTyp, inVal, retrCnt, issued, key("G|github.com/sarchlab/akita/v5/timing.idGenerator|"), key("G|github.com/sarchlab/akita/v5/timing.idGeneratorInstantiated|"), key("O|timing.sequentialIDGenerator|nextID"), key("O|timing.parallelIDGenerator|nextID")
+//@   assigns m.comp.State.ControlState, m.comp.State.CurrentCmdID, m.comp.State.CurrentCmdSrc, m.comp.State.WalkingTranslations, m.comp.State.RemoteMemReqs, m.comp.State.ToRemoveFromPTW, c03EndN, c03EndSeq, canSend, sendCnt, sentTyp, sentVal, inTyp, inVal, retrCnt, issued, key("G|github.com/sarchlab/akita/v5/timing.idGenerator|"), key("G|github.com/sarchlab/akita/v5/timing.idGeneratorInstantiated|"), key("O|timing.sequentialIDGenerator|nextID"), key("O|timing.parallelIDGenerator|nextID")
 
 // ---- one tick: commands are taken one at a time; while a drain is pending no request is retrieved ----
 //@ pred c18DrainPending(m) = m.comp.State.ControlState == memcontrolprotocol.StateDraining && !(c18Quiet(m) && canSend[c18Ctl(m)])
@@ -220,14 +265,14 @@ package datamover
 //@ fn (*ctrlMiddleware).Tick
 //@   property C18
 //@   requires c18WF(m) && idGenOK()
-//@   label C18.datamover.serial
+//@   label C18.gmmu.serial
 //@   ensures old(c18DrainPending(m)) ==> !result && c18NoSend() && c18NoRetr() && c18Kept(m)
-//@   label C18.datamover.serial.one
+//@   label C18.gmmu.serial.one
 //@   ensures old(retrCnt)[c18Ctl(m)] <= retrCnt[c18Ctl(m)] && retrCnt[c18Ctl(m)] <= old(retrCnt)[c18Ctl(m)] + 1
-//@   label C18.datamover.serial.ackfirst
+//@   label C18.gmmu.serial.ackfirst
 //@   ensures old(c18DrainDue(m)) ==> sendCnt[c18Ctl(m)] > old(sendCnt)[c18Ctl(m)] && c18IsRsp(c18SentAt(c18Ctl(m), old(sendCnt)[c18Ctl(m)])) && as(c18SentAt(c18Ctl(m), old(sendCnt)[c18Ctl(m)]), "memcontrolprotocol.Rsp").Command == memcontrolprotocol.CmdDrain && as(c18SentAt(c18Ctl(m), old(sendCnt)[c18Ctl(m)]), "memcontrolprotocol.Rsp").RspTo == old(m.comp.State.CurrentCmdID)
-//@   label C18.datamover.serial.sends
+//@   label C18.gmmu.serial.sends
 //@   ensures old(sendCnt)[c18Ctl(m)] <= sendCnt[c18Ctl(m)] && sendCnt[c18Ctl(m)] <= old(sendCnt)[c18Ctl(m)] + (old(c18DrainDue(m)) ? 2 : 1)
-//@   label C18.datamover.tick.idgen
+//@   label C18.gmmu.tick.idgen
 //@   ensures idGenOK()
-//@   assigns m.comp.State.ControlState, m.comp.State.CurrentCmdID, m.comp.State.CurrentCmdSrc, m.comp.State.CurrentTransaction, m.comp.State.Buffer, c03EndN, c03EndSeq, canSend, sendCnt, sentTyp, sentVal, inTyp, inVal, retrCnt, issued, key("G|github.com/sarchlab/akita/v5/timing.idGenerator|"), key("G|github.com/sarchlab/akita/v5/timing.idGeneratorInstantiated|"), key("O|timing.sequentialIDGenerator|nextID"), key("O|timing.parallelIDGenerator|nextID")
+//@   assigns m.comp.State.ControlState, m.comp.State.CurrentCmdID, m.comp.State.CurrentCmdSrc, m.comp.State.WalkingTranslations, m.comp.State.RemoteMemReqs, m.comp.State.ToRemoveFromPTW, c03EndN, c03EndSeq, canSend, sendCnt, sentTyp, sentVal, inTyp, inVal, retrCnt, issued, key("G|github.com/sarchlab/akita/v5/timing.idGenerator|"), key("G|github.com/sarchlab/akita/v5/timing.idGeneratorInstantiated|"), key("O|timing.sequentialIDGenerator|nextID"), key("O|timing.parallelIDGenerator|nextID")
